@@ -158,6 +158,7 @@ Theorem join_visits_intersection e av eids hs ms l e' :
   (forall p, In p l -> length (snd p) = length ms).
 Proof.
   unfold env_join. destruct (join_ok e (JSeq None) ms); cbn [negb]; [|discriminate].
+  destruct (handles_ok hs _ ms); cbn [negb]; [|discriminate].
   destruct (forallb (m_registered e) ms); cbn [negb]; [|discriminate].
   destruct (jkeys e eids ms) as [keys|] eqn:Ek; [|discriminate].
   pose proof (visit_keys_indices av hs (is_lending (JSeq None)) eids ms keys e) as Hi.
@@ -171,6 +172,7 @@ Theorem join_take_prefix e av eids hs ms n l e' keys :
   env_join e av eids hs (JSeq (Some n)) ms = (e', JItems l) -> jkeys e eids ms = Some keys -> map fst l = firstn n keys.
 Proof.
   unfold env_join. destruct (join_ok e (JSeq (Some n)) ms); cbn [negb]; [|discriminate].
+  destruct (handles_ok hs _ ms); cbn [negb]; [|discriminate].
   destruct (forallb (m_registered e) ms); cbn [negb]; [|discriminate].
   intros H Hk. rewrite Hk in H.
   pose proof (visit_keys_indices av hs (is_lending (JSeq (Some n))) eids ms (firstn n keys) e) as Hi.
@@ -191,7 +193,8 @@ Qed.
 
 (* the lending lookup by entity: an item exactly when the entity is alive and in the intersection *)
 Theorem lend_get_spec e av eids hs ms h ent :
-  join_ok e (JLendGet h) ms = true -> forallb (m_registered e) ms = true -> pv_get hs (N.of_nat h) = Some ent ->
+  join_ok e (JLendGet h) ms = true -> handles_ok hs (JLendGet h) ms = true -> forallb (m_registered e) ms = true ->
+  pv_get hs (N.of_nat h) = Some ent ->
   match snd (env_join e av eids hs (JLendGet h) ms) with
   | JOne (Some (i, xs)) => i = fst ent /\ all_have e eids ms (fst ent) = true /\ av_alive av ent = true /\
                            xs = snd (visit_members av hs true eids ms (fst ent) e)
@@ -199,21 +202,21 @@ Theorem lend_get_spec e av eids hs ms h ent :
   | _ => False
   end.
 Proof.
-  intros Hok Hreg Hh. unfold env_join. rewrite Hok, Hreg, Hh. cbn [negb is_lending].
+  intros Hok Hhs Hreg Hh. unfold env_join. rewrite Hok, Hhs, Hreg, Hh. cbn [negb is_lending].
   destruct (all_have e eids ms (fst ent) && av_alive av ent) eqn:E; cbn [snd]; [|reflexivity].
   apply andb_true_iff in E. destruct E as [E1 E2].
   destruct (visit_members av hs true eids ms (fst ent) e) as [e1 xs]. cbn [snd]. auto.
 Qed.
 
 Theorem lend_get_unchecked_spec e av eids hs ms i :
-  join_ok e (JLendIdx i) ms = true -> forallb (m_registered e) ms = true ->
+  join_ok e (JLendIdx i) ms = true -> handles_ok hs (JLendIdx i) ms = true -> forallb (m_registered e) ms = true ->
   match snd (env_join e av eids hs (JLendIdx i) ms) with
   | JOne (Some (j, xs)) => j = i /\ all_have e eids ms i = true /\ xs = snd (visit_members av hs true eids ms i e)
   | JOne None => all_have e eids ms i = false
   | _ => False
   end.
 Proof.
-  intros Hok Hreg. unfold env_join. rewrite Hok, Hreg. cbn [negb is_lending].
+  intros Hok Hhs Hreg. unfold env_join. rewrite Hok, Hhs, Hreg. cbn [negb is_lending].
   destruct (all_have e eids ms i) eqn:E; cbn [snd]; [|reflexivity].
   destruct (visit_members av hs true eids ms i e) as [e1 xs]. cbn [snd]. auto.
 Qed.
@@ -224,6 +227,7 @@ Theorem lend_join_same_indices e av eids hs ms l1 l2 e1 e2 :
   env_join e av eids hs (JLend None) ms = (e2, JItems l2) -> map fst l1 = map fst l2.
 Proof.
   unfold env_join. destruct (join_ok e (JSeq None) ms); cbn [negb]; [|discriminate].
+  destruct (handles_ok hs _ ms); cbn [negb]; [|discriminate].
   destruct (forallb (m_registered e) ms); cbn [negb]; [|discriminate].
   destruct (join_ok e (JLend None) ms); cbn [negb]; [|discriminate].
   destruct (jkeys e eids ms) as [keys|]; [|discriminate].
@@ -251,6 +255,8 @@ Theorem par_join_is_seq_join e av eids hs n ms :
   env_join e av eids hs (JPar n) ms = env_join e av eids hs (JSeq None) ms.
 Proof.
   intros H1 H2. unfold env_join. rewrite H1, H2. cbn [negb is_lending].
+  assert (handles_ok hs (JPar n) ms = handles_ok hs (JSeq None) ms) as -> by reflexivity.
+  destruct (handles_ok hs (JSeq None) ms); cbn [negb]; [|reflexivity].
   destruct (forallb (m_registered e) ms); cbn [negb]; [|reflexivity].
   destruct (jkeys e eids ms) as [keys|]; [|reflexivity].
   destruct (visit_keys av hs false eids ms keys e) as [e1 r].
@@ -275,6 +281,7 @@ Theorem par_join_each_index_once e av eids hs n ms l e' :
   NoDup (map fst l) /\ (forall i, In i (map fst l) <-> all_have e eids ms i = true).
 Proof.
   unfold env_join. destruct (join_ok e (JPar n) ms); cbn [negb]; [|discriminate].
+  destruct (handles_ok hs _ ms); cbn [negb]; [|discriminate].
   destruct (forallb (m_registered e) ms); cbn [negb]; [|discriminate].
   destruct (jkeys e eids ms) as [keys|] eqn:Ek; [|discriminate].
   pose proof (visit_keys_indices av hs (is_lending (JPar n)) eids ms keys e) as Hi.
